@@ -379,22 +379,34 @@ def sibling_rules(prog, chk, pid):
         chk.require(ok, P("add-infinity-operand-%d" % i), fi.qualname, "if not Y%d or not Z%d: return the other operand" % (i, i), "%s:%d" % (fi.file, fi.lineno),
                     "operand %d is recognised as infinity exactly when Y%d = 0 or Z%d = 0" % (i, i, i), why)
     # infinity mapping in the public operations
+    # private helpers of the class that are not themselves units of the analysis (an extracted epilogue, say) are interpreted as part of their caller
+    UNITS = set(FORMULAS) | {"_add", "_double", "_naf", "_mul_precompute", "_maybe_precompute", "double", "to_affine", "from_affine", "x", "y", "curve", "order", "__neg__", "__eq__", "__mul__", "__add__", "mul_add"}
+    inline_helpers = lambda e, f, d: f.cls is cls and f.name not in UNITS and d < 3
     for mname in ("double", "__add__", "__mul__", "_mul_precompute", "mul_add"):
         fi = cls.methods[mname]
-        ex = Exec(prog, policy=lambda e, f, d: False)
+        ex = Exec(prog, policy=inline_helpers)
         res = ex.run(fi)
         gs = [g for g in res.events if g.kind == "guard" and g.d.get("term") == "return"]
-        ok = False
-        for g in gs:
-            r = raise_rel(g)
-            if r[0] == "or" and len(r[1]) == 2 and all(a[0] == "rel" and a[1] == "Falsy" for a in r[1]):
+        news = [x for x in res.events if x.kind == "new" and x.d["cls"].name == "PointJacobi"]
+        ok = bool(news)
+        for nw in news:
+            # every point object that is built must be preceded, on all paths, by `Y or Z is zero -> return INFINITY` on ITS OWN Y and Z arguments
+            a = list(nw.d["args"]) + [None] * 4
+            kw = nw.d.get("kwargs", {})
+            yz = [unsnap(kw.get("y", a[2])) if kw.get("y", a[2]) is not None else None, unsnap(kw.get("z", a[3])) if kw.get("z", a[3]) is not None else None]
+            good = False
+            for g in gs:
+                r = raise_rel(g)
+                if not (r[0] == "or" and len(r[1]) == 2 and all(x[0] == "rel" and x[1] == "Falsy" for x in r[1])):
+                    continue
+                tested = [unsnap(x[2]) for x in r[1]]
+                if not (yz[0] is not None and yz[1] is not None and {id(t) for t in tested} == {id(yz[0]), id(yz[1])}):
+                    continue
                 arm = g.d.get("arm")
                 rv = [x for x in res.events if arm and arm[0] <= x.uid < arm[1] and x.kind == "return"]
-                if rv and "INFINITY" in show(rv[0].d["value"], 3):
-                    # it must precede the construction of the result point
-                    news = [x for x in res.events if x.kind == "new" and x.d["cls"].name == "PointJacobi" and x.uid > g.uid]
-                    if news:
-                        ok = True
+                if rv and "INFINITY" in show(rv[0].d["value"], 3) and dominates(g, nw):
+                    good = True
+            ok = ok and good
         chk.require(ok, P("infinity-mapping"), fi.qualname, "if not Y3 or not Z3: return INFINITY", "%s:%d" % (fi.file, fi.lineno), "a result with Y3 = 0 or Z3 = 0 (the library's encoding of infinity) is returned as INFINITY before a point object is built", "results with Y3 = 0 or Z3 = 0 are not mapped to INFINITY")
 
 
